@@ -39,6 +39,11 @@ CHECKS = {
         text="Lean theorems over a byte-level model of url.PathEscape/PathUnescape, the server's Path/RawPath split, chi's choice of routing path and goa's Vars: unescape(pathEscape v) = v and 'an escaped value is one segment' for every byte string; vars_roundtrip_param / vars_roundtrip_catchall: a URL built by substituting the escaped value into /l/{name} or /l/{*name} yields exactly the original bytes in Vars for every value (both the RawPath and the decoded-path branch, the latter via 'if the two escaping modes agree the value contains no slash'); the wildcard table keeps names per method. Tie: real muxer behind http.ReadRequest and real net/url vs the compiled model on built URLs (expected route and values known independently) and arbitrary paths; 404 body decoded.",
         note="chi's radix tree is not modelled: a specification matcher stands for it (trusted, validated by the run; ambiguous requests not compared). Theorems are stated for one literal segment followed by one wildcard; multi-wildcard patterns are covered by the correspondence and the direct oracle.",
         ref="DESIGN.md §3 C16"),
+    "C13": dict(
+        category="proof",
+        text="Lean theorems over a model of expr.Hash that reproduces the exact hash strings (separators regenerated from /repo): hash_congr (graphs that agree on sorted attribute lists, types, field tags and effective names hash identically from every node and seen-table), hence hash_perm_object / hash_perm_union (declaration order of attributes/alternatives with distinct names is irrelevant, all flags, cyclic graphs included) and hash_order_indep (any reordering of a metadata map is irrelevant); hash_not_complete: kernel-checked witness that equal hash does not imply equality (known finding). Copy independence (Dup/DupAtt) is decided on the implementation: structural equality of the copy, reflective scan for shared mutable cells, mutation scripts; six defects were repaired (fix: commits), shared result-type views remain a known finding.",
+        note="Partial: no Lean heap model of Dup yet (independence is an implementation-side oracle over generated graphs, not a theorem); termination of Hash on object-free cycles (not DSL-reachable) not covered.",
+        ref="DESIGN.md §3 C13"),
 }
 
 m = {
